@@ -121,6 +121,58 @@ theorem slater_circuit_structure (n : Nat) (desc : List (List (Option (Nat × Na
 /-- non-vacuity: the full schedule for `n = 4` is such a description (and is not empty) -/
 example : slaterSchedulePairs 4 = [[(2, 3)], [(1, 2)], [(0, 1), (2, 3)], [(1, 2)], [(2, 3)]] := by decide
 
+/-! ## initial-state glue of the primitives (all inputs) -/
+
+/-- `_occupied_orbitals(state, n)`: exactly the big-endian one-bits of `state` -/
+theorem occupied_orbitals_spec (state n j : Nat) :
+    j ∈ occupiedOrbitals state n ↔ j < n ∧ state.testBit (n - 1 - j) = true := by
+  simp [occupiedOrbitals]
+
+/-- after the bit flips of `prepare_slater_determinant` / `_slater_basis_change` exactly the first `nOcc` qubits
+are set: qubit `j < n` ends up occupied (initially occupied XOR flipped) iff `j < nOcc` -/
+theorem slater_flips_spec (n nOcc : Nat) (occ : List Nat) (j : Nat) (hj : j < n) :
+    (occ.contains j != (slaterFlips n nOcc occ).contains j) = decide (j < nOcc) := by
+  have hmem : (slaterFlips n nOcc occ).contains j = (decide (j < nOcc) != occ.contains j) := by
+    rw [Bool.eq_iff_iff]
+    simp only [List.contains_iff_mem, slaterFlips, List.mem_filter, List.mem_range]
+    constructor
+    · intro h; exact h.2
+    · intro h; exact ⟨hj, h⟩
+  rw [hmem]
+  cases occ.contains j <;> cases decide (j < nOcc) <;> rfl
+
+/-- after the bit flips of `_generic_gaussian_circuit` exactly the start orbitals are set -/
+theorem gaussian_flips_spec (n : Nat) (occ start : List Nat) (j : Nat) (hj : j < n) :
+    (occ.contains j != (gaussianFlips n occ start).contains j) = start.contains j := by
+  have hmem : (gaussianFlips n occ start).contains j = (occ.contains j != start.contains j) := by
+    rw [Bool.eq_iff_iff]
+    simp only [List.contains_iff_mem, gaussianFlips, List.mem_filter, List.mem_range]
+    constructor
+    · intro h; exact h.2
+    · intro h; exact ⟨hj, h⟩
+  rw [hmem]
+  cases occ.contains j <;> cases start.contains j <;> rfl
+
+/-- the flips only touch qubits of the register -/
+theorem flips_in_register (n nOcc : Nat) (occ start : List Nat) :
+    (∀ j ∈ slaterFlips n nOcc occ, j < n) ∧ (∀ j ∈ gaussianFlips n occ start, j < n) := by
+  constructor <;> intro j hj
+  · simp only [slaterFlips, List.mem_filter, List.mem_range] at hj; exact hj.1
+  · simp only [gaussianFlips, List.mem_filter, List.mem_range] at hj; exact hj.1
+
+/-- spin-block split: an index is occupied iff it is an occupied up-orbital or (shifted) an occupied down-orbital -/
+theorem split_orbitals_spec (n : Nat) (occ : List Nat) (i : Nat) :
+    (i ∈ (splitOrbitals n occ).1 ↔ i ∈ occ ∧ i < n / 2) ∧
+    (i ∈ (splitOrbitals n occ).2 ↔ i + n / 2 ∈ occ) := by
+  constructor
+  · simp [splitOrbitals]
+  · simp only [splitOrbitals, List.mem_map, List.mem_filter, decide_eq_true_eq]
+    constructor
+    · rintro ⟨a, ⟨ha, hle⟩, rfl⟩
+      have : a - n / 2 + n / 2 = a := by omega
+      rw [this]; exact ha
+    · intro h
+      exact ⟨i + n / 2, ⟨h, by omega⟩, by omega⟩
 /-! ## from the one-particle block to Fock space -/
 
 /-- Lift of the single-particle statements: if an invertible operator `U` conjugates every creation operator
